@@ -11,7 +11,7 @@ import (
 type client struct{ id string }
 
 var keysV = []string{"a", "b", "c"}
-var valsV = []string{"1", "2", "xy", "alice", "bob"}
+var valsV = []string{"1", "2", "xy", "alice", "bob", "", strings.Repeat("x", 200)}
 
 func genScript(r *gen.Rand, api string, c cfgIn, ids []string, own string, calm bool) []string {
 	var sc []string
@@ -137,6 +137,9 @@ func genCase(r *gen.Rand, wr *gen.Writer) (cfgIn, []op, string) {
 	if r.Chance(1, 32) {
 		c.source, c.idle = "default", defaultIdle // session.Config without KeyLookup / IdleTimeout
 	}
+	if r.Chance(1, 4) {
+		c.storage += "N" // session.New with an explicit Store instead of session.NewWithStore
+	}
 	c.abs = gen.Pick(r, []int{0, 0, c.idle, 2 * c.idle, 3*c.idle + 1})
 	wr.Count("source-" + c.source)
 	wr.Count("storage-" + c.storage)
@@ -145,10 +148,11 @@ func genCase(r *gen.Rand, wr *gen.Writer) (cfgIn, []op, string) {
 	}
 	// keep-alive stream: few clients that come back just before the idle timeout, so that sessions
 	// outlive their absolute deadline (and custom idle timeouts) while still live in the storage
-	keepAlive := c.abs > 0 && r.Chance(1, 2)
+	keepAlive := c.abs > 0 && c.idle <= 10 && r.Chance(4, 5) // (every virtual second costs a timer wake-up)
 	if keepAlive {
 		wr.Count("keep-alive")
 	}
+	longAdvances := 0
 	w, panicked := newWorld(c)
 	if panicked {
 		return c, []op{{kind: "a", secs: 1}}, "panic"
@@ -189,6 +193,12 @@ func genCase(r *gen.Rand, wr *gen.Writer) (cfgIn, []op, string) {
 			o := op{kind: "a", secs: gen.Pick(r, choices)}
 			if o.secs < 0 {
 				o.secs = 0
+			}
+			if o.secs > 100 { // the 30-minute default: one long advance per history is enough
+				if longAdvances > 0 {
+					o.secs = 1 + r.Intn(2)
+				}
+				longAdvances++
 			}
 			time.Sleep(time.Duration(o.secs) * time.Second)
 			elapsed += o.secs
@@ -316,6 +326,9 @@ func genSchedule(r *gen.Rand, wr *gen.Writer) (cfgIn, []op, string) {
 	c := cfgIn{source: gen.Pick(r, []string{"cookie", "cookie", "header", "query"}),
 		storage: gen.Pick(r, []string{"inj", "inj", "mem"}), idle: gen.Pick(r, []int{2, 5, 10})}
 	c.abs = gen.Pick(r, []int{0, 0, c.idle, 2 * c.idle})
+	if r.Chance(1, 4) {
+		c.storage += "N"
+	}
 	wr.Count("schedule")
 	wr.Count("source-" + c.source)
 	wr.Count("storage-" + c.storage)
